@@ -4,6 +4,8 @@ import re
 
 KEYWORDS = set("as break const continue crate else enum extern false fn for if impl in let loop match mod move mut pub ref return self Self static struct super trait true type unsafe use where while async await dyn abstract become box do final macro override priv typeof unsized virtual yield try".split())
 STD = {"Option", "Vec", "String", "bool", "f64"}
+# primitive and prelude types a generated item may name without defining them
+PRIMS = set("u8 u16 u32 u64 u128 usize i8 i16 i32 i64 i128 isize f32 f64 bool char str String".split())
 IDENT = re.compile(r"^[A-Za-z_][A-Za-z0-9_]*$")
 
 
@@ -139,7 +141,7 @@ def resolve_problems(items):
                     probs.append(("duplicate-field" if it[0] == "struct" else "duplicate-variant", f"{it[1]}.{f}"))
                 seen.add(f)
         for r in refs:
-            if r not in defined:
+            if r not in defined and r not in PRIMS:
                 probs.append(("undefined-type", r))
 
         def arity(ty):
